@@ -71,4 +71,16 @@ pub(crate) mod verif_rig_state {
         kani::assume(w >= 0.0 && w <= 1.0 - 1e-10);
         w
     }
+
+    /// `<ProgressFinish as Clone>::clone` for harnesses whose finish messages are the borrowed literal "fm": rebuilds the
+    /// value without going through Cow::Owned / String::clone (an allocation of symbolic size for CBMC).
+    pub(crate) fn clone_finish_fm(f: &ProgressFinish) -> ProgressFinish {
+        match f {
+            ProgressFinish::AndLeave => ProgressFinish::AndLeave,
+            ProgressFinish::WithMessage(_) => ProgressFinish::WithMessage("fm".into()),
+            ProgressFinish::AndClear => ProgressFinish::AndClear,
+            ProgressFinish::Abandon => ProgressFinish::Abandon,
+            ProgressFinish::AbandonWithMessage(_) => ProgressFinish::AbandonWithMessage("fm".into()),
+        }
+    }
 }
